@@ -23,10 +23,10 @@ def frontier_jobs(tier):
     """O3: after every delivery through the real merge walk the reported heads are the frontier"""
     n = 3 if tier == "quick" else 4
     return [{"id": f"O3.frontier.register.n{n}", "func": "VerifH_C02_Deliver",
-             "conf": {"n": n, "kind": 0, "del": -1, "deliveries": 3, "hasfield": 1, "class": 2, "dag": "", "orders": "all"},
+             "conf": {"n": n, "kind": 0, "del": -1, "deliveries": 3, "hasfield": 1, "class": 2, "dag": "", "orders": "all", "shortid": 0},
              "_obligation": "O3", "_covers": ["delivered"], "unwind": 40, "reset_mode": True},
             {"id": "O3.frontier.counter.two-chains-3-2", "func": "VerifH_C02_Deliver",
-             "conf": {"n": 6, "kind": 1, "del": -1, "deliveries": 3, "hasfield": 1, "class": 2, "dag": _c02.SHAPES["two-chains-3-2"], "orders": "two"},
+             "conf": {"n": 6, "kind": 1, "del": -1, "deliveries": 3, "hasfield": 1, "class": 2, "dag": _c02.SHAPES["two-chains-3-2"], "orders": "two", "shortid": 0},
              "_obligation": "O3", "_covers": ["delivered"], "unwind": 60, "reset_mode": True}]
 
 
